@@ -1193,6 +1193,8 @@ def guards():
                 return None
         return None
     rows = []
+    ctor_rows = set()
+    fn_stack = []
     locals_stack = []
     localnames_stack = []
 
@@ -1236,7 +1238,9 @@ def guards():
                                          and isinstance(a_.targets[0], ast.Name) and cnt.get(a_.targets[0].id) == 1 and a_.targets[0].id not in argn
                                          and (not isinstance(a_.value, ast.Call) or ast.unparse(a_.value.func).startswith("self."))})
                     localnames_stack.append(set(cnt) - argn)
+                    fn_stack.append(ch.name)
                     visit(ch, stack)
+                    fn_stack.pop()
                     locals_stack.pop()
                     localnames_stack.pop()
                     continue
@@ -1291,11 +1295,13 @@ def guards():
                         n_.id = order_[n_.id]
                 txt = ast.unparse(tree_)
                 rows.append((f"{rel}:{'.'.join(stack)}", f"{txt} {sym[opc]} {rn!r}"))
+                if fn_stack and fn_stack[0] == "__init__":
+                    ctor_rows.add(rows[-1])
             for sub in items:
                 visit(sub, stack)
         visit(tree, [])
     rows = sorted(set(rows))
-    return guards_lean(rows, "Gen", "GENERATED by tools/pyexpr.py from /repo/src/hmf — do not edit."), rows
+    return guards_lean(rows, "Gen", "GENERATED by tools/pyexpr.py from /repo/src/hmf — do not edit.", ctor_rows), rows
 
 
 GUARD_AREAS = {"mass_function/integrate_hmf.py": "integrate", "mass_function/fitting_functions.py": "fits", "mass_function/hmf.py": "massFunction",
@@ -1304,8 +1310,14 @@ GUARD_AREAS = {"mass_function/integrate_hmf.py": "integrate", "mass_function/fit
                "halos/mass_definitions.py": "mdef", "cosmology/growth_factor.py": "growth", "cosmology/cosmo.py": "cosmo"}
 
 
-def guards_lean(rows, ns, header):
+def guards_lean(rows, ns, header, ctor_rows=None):
     L = [f"/-! {header} -/", f"namespace Hmf.{ns}.Guards", ""]
+    if ctor_rows is not None:
+        # the comparisons made while a fitting function is constructed (range checks on its model parameters), separately
+        sel = sorted((a.split(":", 1)[1], b) for a, b in ctor_rows if a.split(":", 1)[0] == "mass_function/fitting_functions.py")
+        L.append("def fitParameterRanges : List (String × String) := [")
+        L.append(",\n".join(f"  ({lean_str(a)}, {lean_str(b)})" for a, b in sel))
+        L.append("]")
     for rel, area in GUARD_AREAS.items():
         sel = [(a.split(":", 1)[1], b) for a, b in rows if a.split(":", 1)[0] == rel]
         L.append(f"def {area} : List (String × String) := [")
